@@ -217,6 +217,42 @@ fn run_case<T: Val, C: ArrayLength + PartialEq>(ops: &[Op]) -> String {
         .rev()
         .map(|r| r.iter().map(|x| x.to_i()).collect())
         .collect();
+    // double-ended iteration with a fixed interleaving of next()/next_back():
+    // call i uses next() unless i % 3 == 1; one extra call must return None
+    let mix = |n: usize| -> Vec<bool> { (0..n).map(|i| i % 3 != 1).collect() };
+    let mut mixed: Vec<Vec<i64>> = vec![];
+    let mut extra_none;
+    let mut len_ok;
+    {
+        let mut it = m.iter();
+        len_ok = it.len() == m.rows();
+        for front in mix(m.rows()) {
+            let r = if front { it.next() } else { it.next_back() };
+            match r {
+                Some(row) => mixed.push(row.iter().map(|x| x.to_i()).collect()),
+                None => mixed.push(vec![-1]),
+            }
+            len_ok &= it.len() + mixed.len() == m.rows();
+        }
+        extra_none = it.next().is_none() && it.next_back().is_none();
+    }
+    // the same through iter_mut() on a clone, reading the rows it hands out
+    let mut mixed_mut: Vec<Vec<i64>> = vec![];
+    {
+        let mut c = m.clone();
+        let rows = c.rows();
+        let mut it = c.iter_mut();
+        len_ok &= it.len() == rows;
+        for front in mix(rows) {
+            let r = if front { it.next() } else { it.next_back() };
+            match r {
+                Some(row) => mixed_mut.push(row.iter().map(|x| x.to_i()).collect()),
+                None => mixed_mut.push(vec![-1]),
+            }
+        }
+        extra_none &= it.next().is_none();
+    }
+    let into: Vec<Vec<i64>> = (&m).into_iter().map(|r| r.iter().map(|x| x.to_i()).collect()).collect();
     let eqclone = m == m.clone();
     // same logical cells, different padding
     let mut c = m.clone();
@@ -235,12 +271,16 @@ fn run_case<T: Val, C: ArrayLength + PartialEq>(ops: &[Op]) -> String {
     }
     let eqmod = c2 == m;
     out.push(format!(
-        "END|{}|{}|{}|{}|{}",
+        "END|{}|{}|{}|{}|{}|{}|{}|{}|{}",
         show_rows(&it),
         show_rows(&rv),
         eqclone as u8,
         eqpad as u8,
-        eqmod as u8
+        eqmod as u8,
+        show_rows(&mixed),
+        show_rows(&mixed_mut),
+        show_rows(&into),
+        (extra_none && len_ok) as u8
     ));
     out.join(";")
 }
